@@ -281,8 +281,18 @@ def bounded_native(ck):
             cfg.detector.optical.telescope_effective_area = 2.123456789012345
             cfg.detector.sun_moon.moon_min_phase_angle_cut = 2.6179938779914944
             vs.append((name + ",long-values", cfg))
+        # a Target-mode configuration with negative / more-than-a-turn angles: the header must denote the values the run used
+        from nuspacesim.config import NssConfig as _NC
+
+        tcfg = _NC()
+        tcfg.simulation.mode = "Target"
+        tcfg.simulation.target.source_DEC, tcfg.simulation.target.source_RA = -0.5062832, 0.7
+        vs.append(("mono,nocloud,target-negative-angles", tcfg))
         for name, cfg in vs:
-            cfg.detector.initial_position.latitude, cfg.detector.initial_position.longitude = 0.3, 1.1
+            if "target" not in name:
+                cfg.detector.initial_position.latitude, cfg.detector.initial_position.longitude = 0.3, 1.1
+            else:
+                cfg.detector.initial_position.latitude, cfg.detector.initial_position.longitude = -0.3, -1.1
             cfg.detector.optical.enable = False
             cfg.detector.sun_moon.sun_moon_cuts = False
             cfg.simulation.ionosphere.total_electron_error = 0.0
@@ -308,12 +318,26 @@ def bounded_native(ck):
             if miss or wrong:
                 fails.append({"obligation": "bounded.header", "clause": "header contains the complete flattened configuration (also False / 0 / 0.0 leaves)", "input": {"variant": name},
                               "observed": {"missing": miss[:4], "different": wrong[:4]}})
+            # angles are written as text with a unit: the text must denote the value the configuration holds (sign and turns included)
+            import astropy.units as _u
+
+            for keypath, val in ((("detector", "initial_position", "latitude"), cfg.detector.initial_position.latitude), (("detector", "initial_position", "longitude"), cfg.detector.initial_position.longitude),
+                                 (("simulation", "target", "source_RA"), cfg.simulation.target.source_RA), (("simulation", "target", "source_DEC"), cfg.simulation.target.source_DEC)):
+                hk = "Config " + " ".join(keypath)
+                if hk in h and isinstance(h[hk], str):
+                    try:
+                        denoted = _u.Quantity(h[hk]).to(_u.rad).value
+                    except Exception:
+                        continue
+                    if abs(denoted - val) > 1e-9 * max(1.0, abs(val)):
+                        fails.append({"obligation": "bounded.header", "clause": "an angle in the header denotes the value the configuration holds (sign and full turns included)", "input": {"variant": name, "key": hk, "configured (rad)": val},
+                                      "observed": {"header text": h[hk], "denotes (rad)": float(denoted)}})
             # astropy formats header floats into a 20-character card (about 15 significant digits): that is the precision FITS cards written by astropy can represent
             if abs(h["OMCINT"] - 1.2345678901234567e-5) > 1e-14 * 1.2345678901234567e-5:
                 fails.append({"obligation": "bounded.header", "clause": "header values preserved", "input": {"variant": name, "key": "OMCINT"}, "observed": repr(h["OMCINT"])})
             try:
                 r = config_from_fits(path)
-                pairs = [("latitude", r.detector.initial_position.latitude, 0.3), ("longitude", r.detector.initial_position.longitude, 1.1), ("altitude", r.detector.initial_position.altitude, 525.0),
+                pairs = [("latitude", r.detector.initial_position.latitude, cfg.detector.initial_position.latitude), ("longitude", r.detector.initial_position.longitude, cfg.detector.initial_position.longitude), ("altitude", r.detector.initial_position.altitude, 525.0),
                          ("snr_threshold", r.detector.radio.snr_threshold, 7.5), ("spectrum id", r.simulation.spectrum.id, cfg.simulation.spectrum.id), ("cloud id", r.simulation.cloud_model.id, cfg.simulation.cloud_model.id),
                          ("thrown_events", r.simulation.thrown_events, cfg.simulation.thrown_events), ("etau_frac", r.simulation.tau_shower.etau_frac, cfg.simulation.tau_shower.etau_frac)]
                 pairs += [("title", r.title, cfg.title), ("detector name", r.detector.name, cfg.detector.name), ("effective area", r.detector.optical.telescope_effective_area, cfg.detector.optical.telescope_effective_area),
